@@ -69,6 +69,8 @@ def _init_worker(modname):
     warnings.simplefilter('ignore')
     mod = importlib.import_module(modname)
     _EVAL = mod.evaluate
+    global CASE_TIMEOUT
+    CASE_TIMEOUT = int(os.environ.get('MCX_CASE_TIMEOUT', getattr(mod, 'CASE_TIMEOUT', CASE_TIMEOUT)))
     signal.signal(signal.SIGALRM, _alarm)
 
 
